@@ -37,9 +37,24 @@ ENSURES((OLD(SM3_FED(ctx)) <= G_tk && G_tk - OLD(SM3_FED(ctx)) < datalen)
 	: (SM3_TSEEN(ctx) == OLD(SM3_TSEEN(ctx)) && SM3_TBYTE(ctx) == OLD(SM3_TBYTE(ctx))))
 ;
 
+#ifdef CONTRACT_SM3_FINISH_HISTORY
+/* variant that keeps the previous finished stream too and records one digest byte (index G_FIN_DGST_IDX, a job-chosen
+   expression < 32): for callers that finish twice (HMAC) */
+#ifdef VERIF_CBMC
+uint64_t G_finp_fed; uint8_t G_finp_tbyte; uint8_t G_finp_tseen; uint8_t G_fin_dgst; uint8_t G_finp_dgst;
+#endif
+void sm3_finish(SM3_CTX *ctx, uint8_t dgst[SM3_DIGEST_SIZE])
+REQUIRES(RW_OK(ctx, sizeof(*ctx)) && WR_OK(dgst, 32))
+ASSIGNS(OBJ_UPTO(dgst, 32), G_fin_fed, G_fin_tbyte, G_fin_tseen, G_fin_calls, G_finp_fed, G_finp_tbyte, G_finp_tseen, G_fin_dgst, G_finp_dgst)
+ENSURES(G_fin_fed == SM3_FED(ctx) && G_fin_tbyte == SM3_TBYTE(ctx) && G_fin_tseen == SM3_TSEEN(ctx) && G_fin_calls == OLD(G_fin_calls) + 1)
+ENSURES(G_finp_fed == OLD(G_fin_fed) && G_finp_tbyte == OLD(G_fin_tbyte) && G_finp_tseen == OLD(G_fin_tseen) && G_finp_dgst == OLD(G_fin_dgst))
+ENSURES(G_fin_dgst == dgst[(size_t)(G_FIN_DGST_IDX) < 32 ? (size_t)(G_FIN_DGST_IDX) : 0])
+;
+#else
 void sm3_finish(SM3_CTX *ctx, uint8_t dgst[SM3_DIGEST_SIZE])
 REQUIRES(RW_OK(ctx, sizeof(*ctx)) && WR_OK(dgst, 32))
 ASSIGNS(OBJ_UPTO(dgst, 32), G_fin_fed, G_fin_tbyte, G_fin_tseen, G_fin_calls)
 ENSURES(G_fin_fed == SM3_FED(ctx) && G_fin_tbyte == SM3_TBYTE(ctx) && G_fin_tseen == SM3_TSEEN(ctx) && G_fin_calls == OLD(G_fin_calls) + 1)
 ;
+#endif
 #endif
